@@ -4,19 +4,40 @@ from . import core
 from .ringgen import random_sched
 
 HEADER = "From RM Require Import RingModel FullSync Chan."
+XHEADER = "From RM Require Import RingModel FullSync Chan Reserve ChanX."
+XOPS = ("res", "sres", "cres", "senda")
 
 def coq_op(op):
     n, a = op
     return {"send": "CoSend %d" % (a[0] if a else 0), "sendw": "CoSend %d" % (a[0] if a else 0), "poll": "CoPoll %d" % (a[0] if a else 0),
             "drive": "CoDrive %d" % (a[0] if a else 0), "cancel_all": "CoCancelAll", "len": "CoLen"}[n]
 
+def coq_xop(op):
+    n, a = op
+    if n == "res": return "XoReserve %d %d" % (a[0], a[1])
+    if n == "sres": return "XoSendRes %d" % a[0]
+    if n == "cres": return "XoCancelRes %d" % a[0]
+    if n == "senda": return "XoSendAsync %d" % a[0]
+    return "XoBase (%s)" % coq_op(op)
+
 RUNNERS = {"move_atomic": "run_uni_atomic", "move_full_sync": "run_uni_fullsync"}
+XRUNNERS = {"move_atomic": "run_unix_atomic"}
+ACCEPT_OPS = ("send", "sendw", "senda")
+SLOW_KINDS = ("zc_atomic", "zc_full_sync")          # more accesses per operation: longer round-robin tails
 
 def mk_case(chan, N, M, k, origin, progs, sched, meta=None):
     line = "uni chan=%s N=%d M=%d k=%d origin=%d ; " % (chan, N, M, k, origin) + " ; ".join(
         " ".join(n if not a else n + ":" + ":".join(str(x) for x in a) for n, a in p) for p in progs) + " ; S " + " ".join(map(str, sched))
-    coq = "%s %d %d %d %d [%s] [%s]%%nat" % (RUNNERS[chan], N, M, k, origin,
-            "; ".join("[" + "; ".join(coq_op(o) for o in p) + "]" for p in progs), "; ".join(map(str, sched)))
+    ext = any(n in XOPS for p in progs for n, a in p)
+    if chan not in RUNNERS:
+        coq = None                                                # a kind without a lock-step model: judged by the oracles only
+    elif ext and chan in XRUNNERS:
+        coq = "%s %d %d %d %d [%s] [%s]%%nat" % (XRUNNERS[chan], N, M, k, origin,
+                "; ".join("[" + "; ".join(coq_xop(o) for o in p) + "]" for p in progs), "; ".join(map(str, sched)))
+    else:
+        # (on the full-sync channel send_with_async with a ready setter performs the accesses of send)
+        coq = "%s %d %d %d %d [%s] [%s]%%nat" % (RUNNERS[chan], N, M, k, origin,
+                "; ".join("[" + "; ".join(coq_op((("send", a) if n == "senda" else (n, a))) for n, a in p) + "]" for p in progs), "; ".join(map(str, sched)))
     m = dict(chan=chan, N=N, M=M, k=k, origin=origin, progs=progs, sched=sched)
     m.update(meta or {})
     return Case(line, coq, m)
@@ -38,9 +59,12 @@ def gen_case(rng, chan, Ns=(2, 4), Ms=(1, 2), origin=0, profile=None, tail_round
     nprod = rng.randint(1, 3)
     profile = profile or rng.choice(["drive", "drive", "poll", "cancel"])
     progs = []
+    # (the crossbeam kind's send_with may spin until a consumer makes room when another producer fills the buffer meanwhile - documented)
+    kinds = ["send"] if (chan == "crossbeam" and nprod > 1) else ["send", "send", "sendw"]
+    if chan in SLOW_KINDS: tail_rounds = tail_rounds * 3
     for t in range(nprod):
         n = rng.randint(1, 4)
-        progs.append([(rng.choice(["send", "send", "sendw"]), [100 * (t + 1) + j]) for j in range(n)] + ([("len", [])] if rng.random() < 0.3 else []))
+        progs.append([(rng.choice(kinds), [100 * (t + 1) + j]) for j in range(n)] + ([("len", [])] if rng.random() < 0.3 else []))
     for i in range(k):
         if profile == "poll":
             progs.append([("poll", [i]) for _ in range(rng.randint(1, 5))])
@@ -55,36 +79,204 @@ def gen_case(rng, chan, Ns=(2, 4), Ms=(1, 2), origin=0, profile=None, tail_round
         sched += list(range(nthreads))
     return mk_case(chan, N, M, k, origin, progs, sched, {"profile": profile})
 
+def gen_entry_case(rng, chan, Ns=(2, 4, 8), tail_rounds=50, async_ok=True, reserve_ok=True):
+    """the other entry points: thread 0 issues reserve / fill + send-reserved (mostly the oldest outstanding) / cancel (the latest
+    outstanding) / send_with_async / send / send_with (the last three only with nothing outstanding: a publication by id waits for every
+    earlier reservation) / len and resolves every reservation at the end; in a third of the cases a second producer sends plainly
+    (then no cancels: another producer's reservation above it makes a cancel fail by design); 1..MAX_STREAMS streams are driven or polled"""
+    N = rng.choice(Ns); M = rng.choice([1, 2, 2, 4] if N >= 4 else [1, 2, 2]); k = rng.randint(1, M)
+    second = rng.random() < 0.33
+    if chan == "crossbeam": reserve_ok = False; async_ok = async_ok and not second
+    if chan == "move_full_sync": reserve_ok = False          # (reservations are not implemented by this kind)
+    if chan in SLOW_KINDS: tail_rounds = tail_rounds * 3
+    plain = ["send", "sendw"] if not (chan == "crossbeam" and second) else ["send"]
+    prog = []; out = []; kk = 0; val = 100
+    for _ in range(rng.randint(2, 10)):
+        r = rng.random()
+        if r < 0.3 and reserve_ok and kk < 60 and len(out) < N + 1:
+            prog.append(("res", [kk, val])); out.append(kk); kk += 1; val += 1
+        elif r < 0.55 and out:
+            j = out[0] if rng.random() < 0.85 else rng.choice(out)
+            prog.append(("sres", [j]))
+            if j == out[0]: out.pop(0)
+        elif r < 0.65 and out and not second:
+            prog.append(("cres", [out[-1]])); out.pop()
+        elif r < 0.9 and not out:
+            prog.append((rng.choice(["senda", "senda"] + plain) if async_ok else rng.choice(plain), [val])); val += 1
+        elif r < 0.95:
+            prog.append(("len", []))
+    while out:
+        if rng.random() < 0.3 and not second: prog.append(("cres", [out.pop()]))
+        else: prog.append(("sres", [out.pop(0)]))
+    progs = [prog]
+    if second:
+        progs.append([(rng.choice(plain + ["senda"] if async_ok else plain), [500 + j]) for j in range(rng.randint(1, 3))])
+    polls = rng.random() < 0.2
+    for i in range(k):
+        progs.append([("poll", [i]) for _ in range(rng.randint(1, 5))] if polls else [("drive", [i])])
+    nthreads = len(progs)
+    total = sum(len(p) for p in progs) + 4 * k
+    sched = random_sched(rng, nthreads, rng.randint(0, total * 6), burst=rng.choice([0.3, 0.6, 0.85]))
+    if rng.random() < 0.25:
+        # consumers first park, then the producer runs alone, then everybody: the purely sequential shape
+        sched = [t for t in range(len(progs) - k, len(progs)) for _ in range(14)] + [0] * (len(prog) * 9) + sched
+    for _ in range(tail_rounds):
+        sched += list(range(nthreads))
+    return mk_case(chan, N, M, k, 0, progs, sched, {"profile": "entry"})
+
+ORACLE_ONLY_KINDS = ("zc_atomic", "zc_full_sync", "crossbeam")
+def oracle_only_suites(rng, n, profile=None, Ns=(2, 4), entry=True, tail_rounds=40):
+    """the Uni kinds that have no lock-step model yet (zero-copy atomic / full-sync, crossbeam): the same generated programs and
+    schedules through the same scheduler, judged by the property oracles only (no comparison with a model)"""
+    from .driver import Suite
+    out = []
+    for ch in ORACLE_ONLY_KINDS:
+        cases = [gen_case(rng, ch, Ns=Ns, profile=profile, tail_rounds=tail_rounds) for _ in range(n - (n // 2 if entry else 0))]
+        if entry: cases += [gen_entry_case(rng, ch, Ns=tuple(x for x in (2, 4, 8) if x in Ns or x == 4)) for _ in range(n // 2)]
+        out.append(Suite("uni_%s(oracle only)" % ch, HEADER, cases, compare=False))
+    return out
+
 # ------------------------------------------------------------------------------------------- oracles
 def uni_oracle_exactly_once(case, recs):
     """C01 at the channel level, on the observable history only: every yielded value was sent, no value is yielded twice,
     per-producer order is kept within each stream's yields, Full hands back a payload that was given to that very call, and a
     send answered Full is never yielded (payload ids are unique per case)."""
     hits = []
-    sent = {}
+    sent = {}; resval = {}
     for t, p in enumerate(case.meta["progs"]):
         for n, a in p:
-            if n in ("send", "sendw"): sent[a[0]] = t
+            if n in ACCEPT_OPS: sent[a[0]] = t
+            if n == "res": resval[a[0]] = (a[1], t)
+    granted = {r[3] for r in recs if r[0] == "ret" and r[2] == 20}
+    for r in recs:
+        if r[0] == "ret" and r[2] in (27, 24) and r[3] not in granted:
+            hits.append((None, "%s of reservation %d answered true although no slot was granted to it" % ("send-reserved" if r[2] == 27 else "cancel", r[3])))
+        if r[0] == "ret" and r[2] == 27 and r[3] in resval: sent[resval[r[3]][0]] = resval[r[3]][1]
+    cancelled = {resval[r[3]][0] for r in recs if r[0] == "ret" and r[2] == 24 and r[3] in resval}
     ok = [r[3] for r in recs if r[0] == "ret" and r[2] == 10]
     full = [r[3] for r in recs if r[0] == "ret" and r[2] == 11]
     yields = [(r[3], r[4]) for r in recs if r[0] == "ret" and r[2] == 12]
     seen = set()
     for v, i in yields:
-        if v not in sent: hits.append((None, "stream %d yielded %d which was never sent" % (i, v)))
+        if v in cancelled: hits.append((None, "stream %d yielded %d, the content of a reservation whose cancellation answered true" % (i, v)))
+        elif v not in sent and any(v == rv for rv, _ in resval.values()): hits.append((None, "stream %d yielded %d, the content of a reservation that was never sent" % (i, v)))
+        elif v not in sent: hits.append((None, "stream %d yielded %d which was never sent" % (i, v)))
         if v in seen: hits.append((None, "value %d yielded twice" % v))
         seen.add(v)
         if v in full: hits.append((None, "value %d was rejected as full and yet yielded" % v))
     for v in full:
         if v not in sent: hits.append((None, "rejected send handed back %d which was never given to it" % v))
-    # per stream, per producer: send order
+    # per stream, per producer: the order in which that producer's events were accepted (a send / send_with / send_with_async that
+    # returned Ok, a try_send_reserved that answered true - reservations may be sent in any order where the channel allows it)
+    rank = {}
+    for r in recs:
+        if r[0] == "ret" and r[2] == 10: rank.setdefault(r[3], len(rank))
+        elif r[0] == "ret" and r[2] == 27 and r[3] in resval: rank.setdefault(resval[r[3]][0], len(rank))
     per = {}
     for v, i in yields:
-        if v in sent: per.setdefault((i, sent[v]), []).append(v)
+        if v in sent and v in rank: per.setdefault((i, sent[v]), []).append(v)
     for (i, t), vs in per.items():
-        if vs != sorted(vs): hits.append((None, "stream %d yields producer %d's events out of order: %s" % (i, t, vs)))
+        if vs != sorted(vs, key=lambda v: rank[v]): hits.append((None, "stream %d yields producer %d's events out of the order in which they were accepted: %s" % (i, t, vs)))
     for r in recs:
         if r[0] == "panic": hits.append((None, "panic (kind %d) in thread %d" % (r[2], r[1])))
     return hits
+
+def op_intervals(case, recs):
+    """per operation: (thread, index in its program, name, args, position of its first access (or of the thread's previous return when it
+    has no access of its own), position of its return record, return code) - positions are indices into recs"""
+    progs = case.meta["progs"]
+    pos = {}; first = {}; prev_ret = {}; out = []
+    for i, r in enumerate(recs):
+        if r[0] == "acc":
+            t = r[1]
+            if t not in first: first[t] = i
+        elif r[0] == "ret":
+            t = r[1]
+            if r[2] == 17: continue                                   # (the drop of a payload handle: part of the poll / drive operation)
+            j = pos.get(t, 0)
+            if j >= len(progs[t]): continue
+            n, a = progs[t][j]
+            if n == "drive":                                          # one drive = many polls: every Ready / Pending answer is a record
+                out.append((t, j, "poll", a, first.get(t, prev_ret.get(t, 0)), i, r[2]))
+                first.pop(t, None); prev_ret[t] = i
+                if r[2] == 14: pos[t] = j + 1
+                continue
+            out.append((t, j, n, a, first.get(t, prev_ret.get(t, 0)), i, r[2]))
+            first.pop(t, None); prev_ret[t] = i; pos[t] = j + 1
+    return out
+
+ZC_KINDS = ("zc_atomic", "zc_full_sync")
+def uni_oracle_no_leak(case, recs):
+    """C08, last clause, at the channel level: once every thread has finished and every granted reservation was sent or cancelled, no
+    reservation is left in the dispatching ring (reservation counter = publication counter) and - when every stream was driven to the
+    quiescent end - everything accepted was delivered"""
+    st = end_states(case, recs)
+    if any(v == "running" for v in st.values()): return []
+    granted = {r[3] for r in recs if r[0] == "ret" and r[2] == 20}
+    resolved = {r[3] for r in recs if r[0] == "ret" and r[2] in (27, 24)}
+    if granted - resolved: return []
+    hits = []
+    fin = [r for r in recs if r[0] == "final"]
+    chan = case.meta["chan"]
+    if fin and chan in ("move_atomic", "zc_atomic") and len(fin[0][1]) >= 4:
+        head, tail, etail, dhead = fin[0][1][:4]
+        if etail != tail: hits.append((None, "every reservation was sent or cancelled and every thread finished, yet the reservation counter (%d) is ahead of the publication counter (%d): a slot leaked" % (etail, tail)))
+    driven = sorted(a[0] for p in case.meta["progs"] for n, a in p if n == "drive")
+    if driven == list(range(case.meta["k"])) and not any(n == "cancel_all" for p in case.meta["progs"] for n, a in p):
+        ok = len([r for r in recs if r[0] == "ret" and r[2] in (10, 27)]); yl = len([r for r in recs if r[0] == "ret" and r[2] == 12])
+        if ok != yl and not oracle_lost_wakeup(case, recs):
+            hits.append((None, "%d events were accepted but %d delivered although every stream was driven until the run went quiet" % (ok, yl)))
+    return hits
+
+def uni_oracle_justified_full(case, recs):
+    """C02 / C16 at the channel level: a send / reserve answered 'buffer full' only if at some instant of the call all BUFFER_SIZE slots
+    were taken.  Sound upper bound of the occupancy at every trace position: +1 from the start of every other send / send_with /
+    send_with_async / reserve (whatever its outcome), -1 when such a call returned 'full', when a cancel answered true, and when a
+    delivered event gave its slot back (movable kinds: the yield; zero-copy kinds: the drop of the handle, record 17).  A rejection
+    during which that bound never reaches BUFFER_SIZE is unjustified."""
+    N = case.meta["N"]; chan = case.meta["chan"]
+    ops = op_intervals(case, recs)
+    delta = {}
+    def add(p, d): delta[p] = delta.get(p, 0) + d
+    occupying = [o for o in ops if o[2] in ACCEPT_OPS + ("res",)]
+    rel_code = 17 if chan in ZC_KINDS else 12
+    releases = [i for i, r in enumerate(recs) if r[0] == "ret" and (r[2] == rel_code or r[2] == 24)]
+    hits = []
+    for x in occupying:
+        if x[6] not in (11, 21): continue
+        ev = {}
+        for o in occupying:
+            if o is x: continue
+            ev[o[4]] = ev.get(o[4], 0) + 1
+            if o[6] in (11, 21): ev[o[5]] = ev.get(o[5], 0) - 1
+        for i in releases: ev[i] = ev.get(i, 0) - 1
+        u = 0; best = -1
+        for p in sorted(ev):
+            if p > x[5]: break
+            # an increment at position p takes effect from p on; a decrement at position p too (the slot is free once the record is written)
+            u += ev[p]
+            if p >= x[4]: best = max(best, u)
+        # occupancy when the call started (carried over from the events before it)
+        u0 = sum(d for p, d in ev.items() if p < x[4])
+        best = max(best, u0)
+        if best < N:
+            cls = None
+            if chan == "zc_atomic" and freelist_contended(recs, x): cls = "C02.zc_atomic.spurious_full"
+            hits.append((cls, "%s of thread %d was rejected as 'buffer full' although at most %d of the %d slots were taken at any instant of the call" % (x[2], x[0], max(best, 0), N)))
+    return hits
+
+def freelist_contended(recs, x):
+    """zero-copy atomic kind: while the rejected call looked at the free list (cells 500..), another thread held a lower, not yet receded
+    reservation on the free-list ring (F5's mechanism: between its fetch_add on dequeuer_head and its recede / its slot read)"""
+    t0 = x[0]; inside = set()
+    for i, r in enumerate(recs[:x[5] + 1]):
+        if r[0] != "acc": continue
+        t, loc, kind = r[1], r[2], r[3]
+        if loc == 503 and kind == 2: inside.add(t)                     # fetch_add on the free list's dequeuer_head
+        elif loc == 503 and kind == 3 and r[6] == 1: inside.discard(t)  # receded
+        elif 600 <= loc < 700 and kind == 7: inside.discard(t)          # read its slot: the reservation is validated
+        if i >= x[4] and t == t0 and loc == 501 and (inside - {t0}): return True
+    return False
 
 def uni_nontrivial(case, recs):
     """a context switch while some send or poll is between its first and last access, and a Pending or Full answer"""
@@ -121,7 +313,7 @@ def sends_overlap(case, recs):
             t = r[1]
             if t not in open_:
                 k = pos.get(t, 0)
-                if k < len(progs[t]) and progs[t][k][0] in ("send", "sendw"): open_[t] = i
+                if k < len(progs[t]) and progs[t][k][0] in ACCEPT_OPS + ("sres",): open_[t] = i
         elif r[0] == "ret":
             t = r[1]; pos[t] = pos.get(t, 0) + 1
             if t in open_: intervals.append((open_.pop(t), i))
@@ -130,18 +322,21 @@ def sends_overlap(case, recs):
     return any(a2 < b1 for (a1, b1), (a2, b2) in zip(intervals, intervals[1:]))
 
 def consumer_inside_a_send(case, recs):
-    """some access of a stream-driving thread falls between the first access and the return of a send"""
+    """some access of a stream-driving thread falls between the first access and the return of a send / send_with / send_with_async
+    (the entry points whose wake decision uses the length sampled at the slot reservation)"""
     progs = case.meta["progs"]
     consumers = {t for t, p in enumerate(progs) if any(n in ("drive", "poll") for n, a in p)}
-    open_ = set()
+    open_ = set(); pos = {}
     for r in recs:
         if r[0] == "acc":
             t = r[1]
             if t in consumers:
                 if open_ and r[3] != 11: return True         # (a parked look at `notified` is not a consume step)
-            else: open_.add(t)
+            else:
+                j = pos.get(t, 0)
+                if j < len(progs[t]) and progs[t][j][0] in ACCEPT_OPS: open_.add(t)
         elif r[0] == "ret" and r[1] not in consumers:
-            open_.discard(r[1])
+            open_.discard(r[1]); pos[r[1]] = pos.get(r[1], 0) + 1
     return False
 
 def oracle_lost_wakeup(case, recs):
@@ -150,7 +345,7 @@ def oracle_lost_wakeup(case, recs):
     if any(n == "cancel_all" for p in case.meta["progs"] for n, a in p): return []
     st = end_states(case, recs)
     if any(v == "running" for v in st.values()): return []
-    ok = len([r for r in recs if r[0] == "ret" and r[2] == 10])
+    ok = len([r for r in recs if r[0] == "ret" and r[2] in (10, 27)])
     yl = len([r for r in recs if r[0] == "ret" and r[2] == 12])
     parked = [v[1] for v in st.values() if v != "done"]
     k = case.meta["k"]
@@ -162,7 +357,7 @@ def oracle_lost_wakeup(case, recs):
             # known family F1 / F13 whenever that sample can be stale, i.e. another thread acted inside some send
             if k >= 2: cls = "C04.ring.multi_consumer"
             elif sends_overlap(case, recs): cls = "C04.ring.overlapping_sends"
-            elif consumer_inside_a_send(case, recs) or k < case.meta["M"]: cls = "C04.ring.stale_length_sample"
+            elif consumer_inside_a_send(case, recs): cls = "C04.ring.stale_length_sample"
         return [(cls, "lost wake-up: %d accepted event(s) pending, all producers returned, every stream parked and not notified" % (ok - yl))]
     return []
 
